@@ -523,7 +523,8 @@ fn obs_enum(m: &obs::Model, depth: usize, cur: &mut Vec<obs::ObsOp>, out: &mut V
 fn run_obs(check: &str, tier: &str, seed: u64, known: &Known) -> serde_json::Value {
     use obs::*;
     let quick = tier != "thorough";
-    let is_async = check == "obs-async";
+    let is_async = check.starts_with("obs-async");
+    let follow = check.ends_with("-counts");
     let t0 = std::time::Instant::now();
     // histories: (unique start?, ops)
     let mut hist: Vec<(bool, Vec<ObsOp>)> = Vec::new();
@@ -532,6 +533,7 @@ fn run_obs(check: &str, tier: &str, seed: u64, known: &Known) -> serde_json::Val
         (true, vec![]),
         (false, vec![ObsOp::Subscribe, ObsOp::Poll(0)]),
         (false, vec![ObsOp::CloneOwner, ObsOp::Subscribe, ObsOp::Downgrade]),
+        (false, vec![ObsOp::Subscribe, ObsOp::Downgrade]),
         (true, vec![ObsOp::Subscribe, ObsOp::Poll(0), ObsOp::IntoShared]),
         (false, vec![ObsOp::SubscribeReset, ObsOp::Subscribe, ObsOp::Poll(1), ObsOp::PollOtherWaker(1)]),
     ];
@@ -589,7 +591,7 @@ fn run_obs(check: &str, tier: &str, seed: u64, known: &Known) -> serde_json::Val
                         break;
                     }
                     let (uniq, ops) = &hist[i];
-                    let r = std::panic::catch_unwind(std::panic::AssertUnwindSafe(|| if is_async { run_history::<AsyncSys>(*uniq, ops) } else { run_history::<SyncSys>(*uniq, ops) }));
+                    let r = std::panic::catch_unwind(std::panic::AssertUnwindSafe(|| if is_async { run_history::<AsyncSys>(*uniq, ops, follow) } else { run_history::<SyncSys>(*uniq, ops, follow) }));
                     let mut prevk = "start";
                     for o in ops {
                         lk.insert((prevk.to_string(), o.kind()));
@@ -612,7 +614,7 @@ fn run_obs(check: &str, tier: &str, seed: u64, known: &Known) -> serde_json::Val
                     let j = serde_json::json!({
                         "properties": props, "property": f.property, "classification": f.classification, "what": f.what, "step": f.step,
                         "expected": f.expected, "observed": f.observed, "known": kn,
-                        "input": {"kind": "obs", "flavour": if is_async { "async-lock" } else { "sync" }, "unique_start": uniq, "ops": ops.iter().map(|o| o.to_text()).collect::<Vec<_>>()},
+                        "input": {"kind": "obs", "flavour": if is_async { "async-lock" } else { "sync" }, "unique_start": uniq, "follow_upgrade": follow, "ops": ops.iter().map(|o| o.to_text()).collect::<Vec<_>>()},
                     });
                     let e = lf.entry(key).or_insert((usize::MAX, serde_json::Value::Null));
                     if ops.len() < e.0 {
@@ -636,7 +638,7 @@ fn run_obs(check: &str, tier: &str, seed: u64, known: &Known) -> serde_json::Val
     let sample: Vec<String> = hist.get(n / 2).map(|h| h.1.iter().map(|o| o.to_text()).collect()).unwrap_or_default();
     serde_json::json!({
         "check": check, "tier": tier, "seed": seed,
-        "scope": format!("{} flavour; handle histories over: Set/SetIfNotEq/SetIfHashNotEq (keys {{0,1}}, every stored value tagged uniquely, equality and hash look at the key only), Update, UpdateIf(true/false), Take, write-guard setters, owner get/read, clone/drop/downgrade/upgrade/into_shared, subscribe/subscribe_reset, and per subscriber poll (two different wakers), next_now, next_ref_now, get, read, reset, clone, clone_reset, drop; at most 3 owners, 3 subscribers, 2 weak references; every sequence of depth {} from 2 fresh starts (shared, unique) and depth {} after 4 set-up prefixes{}", if is_async { "async-lock" } else { "sync" }, depth, depth - 1, if quick { "" } else { "; plus 200000 seeded random histories of length 14 (not exhaustive)" }),
+        "scope": format!("{} flavour; handle histories over: Set/SetIfNotEq/SetIfHashNotEq (keys {{0,1}}, every stored value tagged uniquely, equality and hash look at the key only), Update, UpdateIf(true/false), Take, write-guard setters, owner get/read, clone/drop/downgrade/upgrade/into_shared, subscribe/subscribe_reset, and per subscriber poll (two different wakers), next_now, next_ref_now, get, read, reset, clone, clone_reset, drop; at most 3 owners, 3 subscribers, 2 weak references; every sequence of depth {} from 2 fresh starts (shared, unique) and depth {} after 5 set-up prefixes{}", if is_async { "async-lock" } else { "sync" }, depth, depth - 1, if quick { "" } else { "; plus 200000 seeded random histories of length 14 (not exhaustive)" }),
         "evaluations": n,
         "distinct_nontrivial": kinds.into_inner().unwrap().len(),
         "rule": "every history is executed on the real crate and on a reference model; results, readiness, wake-ups and counts are compared after every operation; non-trivial distinct cases = distinct (previous op kind, op kind) pairs executed",
@@ -647,14 +649,119 @@ fn run_obs(check: &str, tier: &str, seed: u64, known: &Known) -> serde_json::Val
     })
 }
 
+fn held_scenarios(quick: bool) -> Vec<obs::HeldScenario> {
+    use obs::*;
+    let qops = vec![QOp::Set(0), QOp::Set(1), QOp::SetIfNotEq(0), QOp::SetIfNotEq(1), QOp::SetIfHashNotEq(1), QOp::Update, QOp::UpdateIf(true), QOp::UpdateIf(false), QOp::Take, QOp::OwnerGet, QOp::SubNext, QOp::SubNextNow, QOp::SubGet, QOp::SubPoll];
+    let mut seqs: Vec<Vec<QOp>> = vec![vec![]];
+    let maxlen = if quick { 3 } else { 4 };
+    let mut all: Vec<Vec<QOp>> = Vec::new();
+    for _ in 0..maxlen {
+        let mut n = Vec::new();
+        for s in &seqs {
+            for q in &qops {
+                let mut t = s.clone();
+                t.push(q.clone());
+                n.push(t);
+            }
+        }
+        all.extend(n.iter().cloned());
+        seqs = n;
+    }
+    let mut out = Vec::new();
+    for pre_set in [None, Some(1u8)] {
+        for subscribe in [false, true] {
+            for set_after in [None, Some(0u8), Some(1u8)] {
+                if !subscribe && set_after.is_some() {
+                    continue;
+                }
+                for wg in [true, false] {
+                    for q in &all {
+                        if !subscribe && q.iter().any(|x| matches!(x, QOp::SubNext | QOp::SubNextNow | QOp::SubGet | QOp::SubPoll)) {
+                            continue;
+                        }
+                        out.push(HeldScenario { pre_set, subscribe, set_after_sub: set_after, write_guard: wg, queued: q.clone() });
+                    }
+                }
+            }
+        }
+    }
+    out
+}
+
+fn held_json(sc: &obs::HeldScenario) -> serde_json::Value {
+    serde_json::json!({"kind": "obs-held", "pre_set": sc.pre_set, "subscribe": sc.subscribe, "set_after_subscribe": sc.set_after_sub, "write_guard": sc.write_guard, "queued": sc.queued.iter().map(|q| format!("{:?}", q)).collect::<Vec<_>>()})
+}
+
+fn run_obs_held(tier: &str, known: &Known) -> serde_json::Value {
+    let t0 = std::time::Instant::now();
+    let scs = held_scenarios(tier != "thorough");
+    let mut failures: BTreeMap<String, (usize, serde_json::Value)> = BTreeMap::new();
+    let mut kinds: BTreeSet<String> = BTreeSet::new();
+    for sc in &scs {
+        for w in sc.queued.windows(2) {
+            kinds.insert(format!("{}:{:?}>{:?}", sc.write_guard, w[0], w[1]));
+        }
+        let r = std::panic::catch_unwind(std::panic::AssertUnwindSafe(|| obs::run_held(sc)));
+        let f = match r {
+            Ok(None) => continue,
+            Ok(Some(f)) => f,
+            Err(p) => {
+                let msg = p.downcast_ref::<String>().cloned().or_else(|| p.downcast_ref::<&str>().map(|s| s.to_string())).unwrap_or_default();
+                obs::ObsFailure { property: "C16", classification: "async-lock/held-guard:panic".into(), what: format!("panicked: {}", msg), step: 0, expected: "no panic".into(), observed: msg }
+            }
+        };
+        let key = f.classification.clone();
+        let j = serde_json::json!({"properties": ["C16"], "property": "C16", "classification": f.classification, "what": f.what, "step": 0, "expected": f.expected, "observed": f.observed, "known": known.matches(&key), "input": held_json(sc)});
+        let e = failures.entry(key).or_insert((usize::MAX, serde_json::Value::Null));
+        if sc.queued.len() < e.0 {
+            *e = (sc.queued.len(), j);
+        }
+    }
+    serde_json::json!({
+        "check": "obs-held", "tier": tier, "seed": 0,
+        "scope": format!("async-lock SharedObservable: a write guard or a read guard is held; every sequence of up to {} operations (set, set_if_not_eq, set_if_hash_not_eq, update, update_if, take, get, subscriber next/next_now/get/poll_next) is started behind it (each future polled once); then the guard is dropped and the futures are driven only when their waker fired; results, final value and the subscriber's readiness afterwards are compared with the sequential execution in queue order; set-ups: with/without an earlier update, with/without a subscriber, with/without an update the subscriber has not seen", if tier != "thorough" { 3 } else { 4 }),
+        "evaluations": scs.len(),
+        "distinct_nontrivial": kinds.len(),
+        "rule": "distinct non-trivial cases = distinct (guard kind, queued op, next queued op) triples",
+        "exhaustive": true,
+        "samples": [held_json(&scs[scs.len() / 2])],
+        "failures": failures.values().map(|x| x.1.clone()).collect::<Vec<_>>(),
+        "elapsed_s": t0.elapsed().as_secs_f64(),
+    })
+}
+
 fn replay_obs(v: &serde_json::Value) -> i32 {
     use obs::*;
     let inp = &v["input"];
+    if inp["kind"].as_str() == Some("obs-held") {
+        let sc = HeldScenario {
+            pre_set: inp["pre_set"].as_u64().map(|x| x as u8),
+            subscribe: inp["subscribe"].as_bool().unwrap_or(false),
+            set_after_sub: inp["set_after_subscribe"].as_u64().map(|x| x as u8),
+            write_guard: inp["write_guard"].as_bool().unwrap_or(true),
+            queued: inp["queued"].as_array().unwrap().iter().map(|q| QOp::parse(q.as_str().unwrap()).expect("qop")).collect(),
+        };
+        println!("replaying on the real crate (async-lock, held guard): {}", inp);
+        return match std::panic::catch_unwind(std::panic::AssertUnwindSafe(|| run_held(&sc))) {
+            Ok(None) => {
+                println!("passes");
+                0
+            }
+            Ok(Some(f)) => {
+                println!("FAILS: [{}] {}\n  expected: {}\n  observed: {}", f.classification, f.what, f.expected, f.observed);
+                1
+            }
+            Err(_) => {
+                println!("FAILS: panicked");
+                1
+            }
+        };
+    }
     let ops: Vec<ObsOp> = inp["ops"].as_array().unwrap().iter().map(|o| ObsOp::parse(o.as_str().unwrap()).expect("op")).collect();
     let uniq = inp["unique_start"].as_bool().unwrap_or(false);
     let is_async = inp["flavour"].as_str() == Some("async-lock");
     println!("replaying on the real crate ({}): {:?}", if is_async { "async-lock" } else { "sync" }, ops.iter().map(|o| o.to_text()).collect::<Vec<_>>());
-    let r = std::panic::catch_unwind(std::panic::AssertUnwindSafe(|| if is_async { run_history::<AsyncSys>(uniq, &ops) } else { run_history::<SyncSys>(uniq, &ops) }));
+    let r = std::panic::catch_unwind(std::panic::AssertUnwindSafe(|| if is_async { run_history::<AsyncSys>(uniq, &ops, inp["follow_upgrade"].as_bool().unwrap_or(false)) } else { run_history::<SyncSys>(uniq, &ops, inp["follow_upgrade"].as_bool().unwrap_or(false)) }));
     match r {
         Ok(None) => {
             println!("passes (no divergence from the reference model on the current tree)");
@@ -677,7 +784,7 @@ fn main() {
     if let Some(rp) = &args.replay {
         let t = std::fs::read_to_string(rp).expect("replay file");
         let v: serde_json::Value = serde_json::from_str(&t).expect("json");
-        if v["input"]["kind"].as_str() == Some("obs") {
+        if v["input"]["kind"].as_str() == Some("obs") || v["input"]["kind"].as_str() == Some("obs-held") {
             std::process::exit(replay_obs(&v));
         }
         let sc = Scenario::from_json(&v["input"]).expect("scenario");
@@ -703,7 +810,17 @@ fn main() {
     let t0 = std::time::Instant::now();
     let prev = std::panic::take_hook();
     std::panic::set_hook(Box::new(|_| {}));
-    if args.check == "obs" || args.check == "obs-async" {
+    if args.check == "obs-held" {
+        let j = run_obs_held(&args.tier, &known);
+        std::panic::set_hook(prev);
+        let text = serde_json::to_string_pretty(&j).unwrap();
+        match &args.out {
+            Some(p) => std::fs::write(p, text).unwrap(),
+            None => println!("{}", text),
+        }
+        return;
+    }
+    if args.check.starts_with("obs") {
         let j = run_obs(&args.check, &args.tier, args.seed, &known);
         std::panic::set_hook(prev);
         let text = serde_json::to_string_pretty(&j).unwrap();
